@@ -274,7 +274,7 @@ func genC10Doc(t *rapid.T) map[string]any {
 
 func genC10(t *rapid.T) any {
 	c := &C10Case{}
-	c.Class = rapid.SampledFrom([]string{"valid", "valid", "mutated", "mutated", "mutated", "bytes", "hostile", "hostile", "hostile-mutated", "fault", "fault", "fault", "cyclic-format", "join-on", "join-on", "scale", "dual-subquery", "stateful-builtins", "union-of-hostile", "parser-known-calls"}).Draw(t, "class")
+	c.Class = rapid.SampledFrom([]string{"valid", "valid", "mutated", "mutated", "mutated", "bytes", "hostile", "hostile", "hostile-mutated", "fault", "fault", "fault", "cyclic-format", "join-on", "join-on", "scale", "dual-subquery", "stateful-builtins", "union-of-hostile", "parser-known-calls", "qualified-call-failing-argument"}).Draw(t, "class")
 	c.Opts = genC10Opts(t)
 	c.Proc = rapid.SampledFrom([]int{0, 0, 1, 2, 4}).Draw(t, "procs")
 	if rapid.IntRange(0, 3).Draw(t, "reexec") == 0 {
@@ -466,6 +466,36 @@ func genC10(t *rapid.T) any {
 		case 1:
 			c.SQL = "SELECT k, (" + strings.Replace(c.SQL, " FROM "+from, " FROM dual", 1) + ") AS sb FROM " + from
 		}
+	case "qualified-call-failing-argument":
+		// ASYNC / SPINASYNC / SPIN / ONCE calls whose ARGUMENT fails on some (or every) row - before the call
+		// itself is started: the query fails or the error is reported, but it returns
+		c.Doc = genC10Doc(t)
+		qual := rapid.SampledFrom([]string{"ASYNC", "ASYNC", "SPINASYNC", "SPIN", "ONCE", "GLOBAL"}).Draw(t, "qf.qual")
+		fn := rapid.SampledFrom([]string{"vf_id(%s)", "CONCAT(%s, s)", "CONCAT(s, %s)", "IF(k > 0, %s, 0)", "vf_mul(k, %s)", "FIRST(ARRAY(%s))"}).Draw(t, "qf.fn")
+		bad := rapid.SampledFrom([]string{"RAISE_WHEN(k > 1, 'boom')", "RAISE_WHEN(k >= 0, 'always')", "k + s", "(NOT 5)", "vf_fail(k)", "vf_panic(k)", "`s[0]`", "`nokey[each].x`", "CHANGETYPE(s, 'integer')",
+			"ELEMENTAT(ARRAY(1), 7)", "(SELECT k + s AS z FROM dual)", "nosuchfn(k)", "ASYNC.vf_id(k + s)", "k / (k - k) + s", "DECODE(s, 'nobase')"}).Draw(t, "qf.bad")
+		call := qual + "." + fmt.Sprintf(fn, bad)
+		if rapid.IntRange(0, 2).Draw(t, "qf.alias") != 0 {
+			call += " AS x"
+		}
+		from := "t"
+		if c.Opts.Wrapped {
+			from = "root.t"
+		}
+		switch rapid.IntRange(0, 6).Draw(t, "qf.pos") {
+		case 0, 1:
+			c.SQL = fmt.Sprintf("SELECT k, %s FROM %s", call, from)
+		case 2:
+			c.SQL = fmt.Sprintf("WITH c AS (SELECT k, %s FROM %s) SELECT * FROM c", call, from)
+		case 3:
+			c.SQL = fmt.Sprintf("SELECT * FROM (SELECT k, %s FROM %s) d", call, from)
+		case 4:
+			c.SQL = fmt.Sprintf("SELECT k, s FROM %s UNION ALL SELECT k, %s FROM %s", from, call, from)
+		case 5:
+			c.SQL = fmt.Sprintf("SELECT k, (SELECT %s FROM dual) AS sb FROM %s", call, from)
+		default:
+			c.SQL = fmt.Sprintf("SELECT k FROM %s WHERE %s IS NULL", from, strings.TrimSuffix(call, " AS x"))
+		}
 	case "parser-known-calls":
 		// calls and special forms the SQL grammar knows but the engine may not implement (aggregates, window
 		// functions, keyword-argument built-ins), in every clause: implemented or rejected, never a crash
@@ -620,7 +650,7 @@ func checkC10(c *C10Case) Result {
 		if parsed {
 			res.Labels = append(res.Labels, "reaches-build")
 		}
-		res.NonTrivial = parsed || c.Class == "fault" || c.Class == "cyclic-format" || c.Class == "mutated" || c.Class == "hostile-mutated" || c.Class == "scale" || c.Class == "dual-subquery" || c.Class == "stateful-builtins" || c.Class == "union-of-hostile" || c.Class == "parser-known-calls"
+		res.NonTrivial = parsed || c.Class == "fault" || c.Class == "cyclic-format" || c.Class == "mutated" || c.Class == "hostile-mutated" || c.Class == "scale" || c.Class == "dual-subquery" || c.Class == "stateful-builtins" || c.Class == "union-of-hostile" || c.Class == "parser-known-calls" || c.Class == "qualified-call-failing-argument"
 	}
 	return res
 }
